@@ -11,7 +11,7 @@ DRV = os.path.join(LEAN_DIR, ".lake", "build", "bin", "drv")
 JOBS = int(os.environ.get("VERIF_JOBS", "16"))
 MARK = b"\x1e"
 
-DEFAULT_BUDGET = dict(steps=200000, depth=400, cells=200000, nest=400, fuel=200000)
+DEFAULT_BUDGET = dict(steps=5000, depth=200, cells=20000, nest=300, fuel=100000)
 
 @dataclass
 class Case:
